@@ -27,11 +27,11 @@ pub fn info() -> PropertyInfo {
     PropertyInfo {
         id: "C16",
         level: "exploration",
-        rule: "case = generated 1-3 file project (types, functions, function blocks with methods, namespaces, CONFIGURATION with VAR_GLOBAL, programs with VAR_EXTERNAL; overlapping name pools; error-free by a fresh Database and compilable by TestHarness::from_sources, else discarded and counted) + identifier token chosen uniformly over all identifier tokens of the project + new name from {fresh, outer-scope, inner-scope, global, other existing, case variant, keyword, invalid, standard function} + 3-5 cycle input trace on %IW0/%IW2/%IX4.0; non-trivial = the project was error-free AND (the symbol has >= 2 occurrences, or occurrences in >= 2 files, or the new name already exists in the project); distinct by SHA-256 of sources + position + new name",
+        rule: "case = generated 1-3 file project (types, functions, function blocks with methods, namespaces whose blocks are spread over the files, standard function calls, CONFIGURATION with VAR_GLOBAL, programs with VAR_EXTERNAL; overlapping name pools; error-free by a fresh Database and compilable by TestHarness::from_sources, else discarded and counted) + identifier token chosen uniformly over all identifier tokens of the project (in ~13 % of the cases uniformly over the tokens of namespace members instead) + new name from {fresh, outer-scope, inner-scope, global, other existing, case variant, keyword, invalid, standard function, name used in a file that has no occurrence of the symbol} + 3-5 cycle input trace on %IW0/%IW2/%IX4.0; non-trivial = the project was error-free AND (the symbol has >= 2 occurrences, or occurrences in >= 2 files, or the new name already exists in the project); distinct by SHA-256 of sources + position + new name",
         assumptions: &[
             "behaviour = the complete variable storage (globals, program and FB instances, structs, enums) after initialisation and after every cycle of a 3-5 cycle trace, plus the cycle errors; function/method locals are observed only through the values they flow into",
             "behaviour is not compared (diagnostics, compilability and rename-back still are) for projects whose references deliberately differ in case from the declaration, for case-only renames, and when the error-free original already faults with Undefined* at run time: open runtime findings (F4 family, recorded for C01) make the runtime's name lookup depend on spelling",
-            "generator steers around three open runtime findings (counted as excluded): FB instance names are distinct from FUNCTION names, FUNCTIONs are not declared in namespaces, renames to the name of a configuration element are not judged",
+            "generator steers around three open runtime findings (counted as excluded): FB instance names are distinct from FUNCTION names; half of the FUNCTIONs wanted inside a namespace are declared outside, projects with the other half are judged by diagnostics, compilability and rename-back only; renames to the name of a configuration element are not judged",
             "all scalar data is INT with typed literals and exact-type assignments (finding F8); no arrays, pointers, properties, interfaces/inheritance, actions, USING directives",
             "a refusal is always accepted (the property allows it); rename-back must be accepted and restore the text byte for byte",
         ],
@@ -81,14 +81,61 @@ pub struct Case {
     pub owner_name: String,
     #[serde(default)]
     pub member_names: Vec<String>,
+    /// the new name is used (as an identifier token) in a file that has no occurrence of the
+    /// chosen symbol: a capture there is invisible to a check that only looks at edited files
+    #[serde(default)]
+    pub new_name_used_in_other_file: bool,
+    /// the project declares a FUNCTION inside a NAMESPACE (open runtime finding)
+    #[serde(default)]
+    pub ns_functions: bool,
+    /// namespace member renamed to a name used inside a namespace block of a file that has
+    /// no occurrence of the member
+    #[serde(default)]
+    pub ns_reopened_use: bool,
+    /// the chosen symbol is declared in a namespace / and another file without an occurrence
+    /// of it re-opens a namespace block
+    #[serde(default)]
+    pub in_namespace: bool,
+    #[serde(default)]
+    pub ns_reopened_elsewhere: bool,
+    /// the position was drawn among the tokens of namespace members only
+    #[serde(default)]
+    pub position_biased: bool,
+}
+
+/// Identifier tokens that stand inside a NAMESPACE ... END_NAMESPACE block of `text`.
+fn idents_inside_namespace_blocks(text: &str) -> Vec<String> {
+    let mut inside = false;
+    let mut after_kw = false;
+    let mut out: Vec<String> = Vec::new();
+    for t in trust_syntax::lexer::lex(text) {
+        if t.kind.is_trivia() {
+            continue;
+        }
+        let s = &text[usize::from(t.range.start())..usize::from(t.range.end())];
+        if s.eq_ignore_ascii_case("NAMESPACE") {
+            inside = true;
+            after_kw = true;
+            continue;
+        }
+        if s.eq_ignore_ascii_case("END_NAMESPACE") {
+            inside = false;
+        } else if inside && !after_kw && t.kind == trust_syntax::lexer::TokenKind::Ident {
+            out.push(s.to_string());
+        }
+        after_kw = false;
+    }
+    out
 }
 
 pub fn case_from_tape(tape: &Tape) -> Case {
     let mut r = Reader::new(tape);
     // selectors first, so that a short tape still chooses position and name freely
     let sel_tok = r.word();
+    let sel_mode = r.word();
     let sel_inner = r.word();
-    let class = r.weighted(&[3, 3, 3, 3, 3, 2, 1, 1, 1, 2]);
+    let class = r.weighted(&[3, 2, 2, 3, 2, 2, 1, 1, 3, 7, 2]);
+    let sel_group = r.word();
     let sel_name = r.word();
     let ncycles = 3 + r.pick(3);
     let trace: Vec<(i16, i16, bool)> = (0..ncycles).map(|_| (r.pick(10) as i16, r.pick(10) as i16, r.flag())).collect();
@@ -107,7 +154,21 @@ pub fn case_from_tape(tape: &Tape) -> Case {
     if toks.is_empty() {
         toks.push((0, 0, 0));
     }
-    let (file, s, e) = toks[pick_w(sel_tok, toks.len())];
+    // Position: uniform over all identifier tokens; in about a quarter of the projects that
+    // have namespace members, uniform over the tokens of those members instead (they are a
+    // few tokens among ~150, and the cross-file capture class needs them as targets).
+    let ns_member_toks: Vec<(usize, usize, usize)> = p
+        .occs
+        .iter()
+        .filter(|o| p.scopes[p.syms[o.sym].scope].kind == "namespace")
+        .map(|o| (o.file, o.start, o.end))
+        .collect();
+    let biased = sel_mode >= 0xC000_0000 && !ns_member_toks.is_empty();
+    let (file, s, e) = if biased {
+        ns_member_toks[pick_w(sel_tok, ns_member_toks.len())]
+    } else {
+        toks[pick_w(sel_tok, toks.len())]
+    };
     let old_name = p.files[file].get(s..e).unwrap_or("").to_string();
     let inner = if e > s { pick_w(sel_inner, e - s) } else { 0 };
     let occ = p.occs.iter().find(|o| o.file == file && o.start == s && o.end == e);
@@ -132,6 +193,8 @@ pub fn case_from_tape(tape: &Tape) -> Case {
     fileset.sort();
     fileset.dedup();
 
+    let files_with_symbol: Vec<usize> = if fileset.is_empty() { vec![file] } else { fileset.clone() };
+    let in_namespace = scope.map(|sc| p.scopes[sc].kind == "namespace").unwrap_or(false);
     // new name
     let names_in = |scopes: &[usize]| -> Vec<String> {
         let mut v: Vec<String> = Vec::new();
@@ -147,6 +210,16 @@ pub fn case_from_tape(tape: &Tape) -> Case {
     };
     let ch = |v: &[String]| -> String { v[pick_w(sel_name, v.len())].clone() };
     let chs = |v: &[&str]| -> String { v[pick_w(sel_name, v.len())].to_string() };
+    // a namespace member is rarely the chosen token; when it is, the "name used in a
+    // re-opened block of the namespace in another file" class is taken three times out of four
+    let class = if in_namespace && class != 9 && sel_group >= 0x4000_0000 {
+        let reopened = p.files.iter().enumerate().any(|(fi, f)| {
+            !files_with_symbol.contains(&fi) && !idents_inside_namespace_blocks(f).is_empty()
+        });
+        if reopened { 9 } else { class }
+    } else {
+        class
+    };
     let (mut name_class, mut new_name): (&str, String) = match class {
         0 => ("fresh", chs(gen::FRESH)),
         1 => {
@@ -178,12 +251,76 @@ pub fn case_from_tape(tape: &Tape) -> Case {
         6 => ("keyword", chs(gen::KEYWORDS)),
         7 => ("invalid", chs(gen::INVALID)),
         8 => ("stdfn", chs(gen::STDFN)),
+        9 => {
+            // a name that is used in a file which has no occurrence of the chosen symbol;
+            // half of the time one that no scope of that file binds closer than the global
+            // level (standard functions, global-level project names): the capture candidates
+            let mut v: Vec<String> = Vec::new();
+            let mut strong: Vec<String> = Vec::new();
+            let top_names: Vec<&str> = p
+                .syms
+                .iter()
+                .filter(|s| matches!(p.scopes[s.scope].kind, "global" | "namespace"))
+                .map(|s| s.name.as_str())
+                .collect();
+            for (fi, f) in p.files.iter().enumerate() {
+                if files_with_symbol.contains(&fi) {
+                    continue;
+                }
+                for (s, e) in core::ident_tokens(f) {
+                    let n = &f[s..e];
+                    if n.eq_ignore_ascii_case(&decl_name) {
+                        continue;
+                    }
+                    if !v.iter().any(|x| x.eq_ignore_ascii_case(n)) {
+                        v.push(n.to_string());
+                    }
+                    let is_std = ["ABS", "MAX", "MIN", "LIMIT"].iter().any(|k| k.eq_ignore_ascii_case(n));
+                    if (is_std || top_names.iter().any(|t| t.eq_ignore_ascii_case(n)))
+                        && !strong.iter().any(|x| x.eq_ignore_ascii_case(n))
+                    {
+                        strong.push(n.to_string());
+                    }
+                }
+            }
+            // for a namespace member: names used inside namespace blocks of those files
+            let mut strong_ns: Vec<String> = Vec::new();
+            if in_namespace {
+                for (fi, f) in p.files.iter().enumerate() {
+                    if files_with_symbol.contains(&fi) {
+                        continue;
+                    }
+                    for n in idents_inside_namespace_blocks(f) {
+                        if strong.iter().any(|x| x.eq_ignore_ascii_case(&n)) && !strong_ns.iter().any(|x| x.eq_ignore_ascii_case(&n)) {
+                            strong_ns.push(n);
+                        }
+                    }
+                }
+            }
+            if !strong_ns.is_empty() && sel_group >= 0x4000_0000 {
+                v = strong_ns;
+            } else if !strong.is_empty() && sel_group >= 0x8000_0000 {
+                v = strong;
+            }
+            if v.is_empty() { ("fresh", "zz9".to_string()) } else { ("other_file", ch(&v)) }
+        }
         _ => ("fresh", chs(gen::FRESH)),
     };
     if new_name == decl_name && name_class != "case" {
         name_class = "fresh";
         new_name = "zz9".to_string();
     }
+    let new_name_used_in_other_file = p.files.iter().enumerate().any(|(fi, f)| {
+        !files_with_symbol.contains(&fi)
+            && core::ident_tokens(f).iter().any(|(s, e)| f[*s..*e].eq_ignore_ascii_case(&new_name))
+    });
+    // the demo shape of seeded change C16-b: the symbol is declared in a namespace, and
+    // another file re-opens a namespace block in which the new name is used
+    let ns_reopened_use = in_namespace
+        && p.files.iter().enumerate().any(|(fi, f)| {
+            !files_with_symbol.contains(&fi)
+                && idents_inside_namespace_blocks(f).iter().any(|n| n.eq_ignore_ascii_case(&new_name))
+        });
     let new_name_exists = p.syms.iter().any(|s| s.name.eq_ignore_ascii_case(&new_name) && !s.name.eq_ignore_ascii_case(&decl_name));
 
     Case {
@@ -210,6 +347,15 @@ pub fn case_from_tape(tape: &Tape) -> Case {
             .collect(),
         function_names: p.syms.iter().filter(|s| s.kind == "function").map(|s| s.name.clone()).collect(),
         instance_names: p.syms.iter().filter(|s| s.kind == "fb_instance").map(|s| s.name.clone()).collect(),
+        new_name_used_in_other_file,
+        ns_reopened_use,
+        position_biased: biased,
+        in_namespace,
+        ns_reopened_elsewhere: in_namespace
+            && p.files.iter().enumerate().any(|(fi, f)| {
+                !files_with_symbol.contains(&fi) && !idents_inside_namespace_blocks(f).is_empty()
+            }),
+        ns_functions: p.ns_functions > 0,
         owner_name: scope
             .and_then(|sc| p.fb_scopes.iter().find(|(s, _)| *s == sc))
             .map(|(_, fb)| p.syms[*fb].name.clone())
@@ -260,7 +406,10 @@ pub fn shapes(c: &Case) -> Vec<&'static str> {
     }
     let is_in = |list: &[String]| list.iter().any(|n| n.eq_ignore_ascii_case(&c.new_name));
     if (c.kind == "function" && is_in(&c.instance_names))
-        || (c.kind == "fb_instance" && (is_in(&c.function_names) || c.name_class == "stdfn"))
+        || (c.kind == "fb_instance"
+            && (is_in(&c.function_names)
+                || c.name_class == "stdfn"
+                || gen::STDFN.iter().any(|n| n.eq_ignore_ascii_case(&c.new_name))))
     {
         v.push("C16-runtime-instance-call-runs-function-of-same-name");
     }
@@ -320,6 +469,22 @@ pub fn check_case(c: &Case, probe: &mut Probe, open: &dyn Fn(&str) -> bool) -> R
     if c.case_variants {
         probe.label("project_has_case_variant_references");
     }
+    if c.new_name_used_in_other_file {
+        probe.label("newname_used_in_file_without_the_symbol");
+    }
+    if c.ns_functions {
+        probe.label("project_has_namespaced_function");
+    }
+    probe.label(if c.position_biased { "position=uniform_over_namespace_member_tokens" } else { "position=uniform_over_all_tokens" });
+    if c.in_namespace {
+        probe.label("symbol_declared_in_namespace");
+    }
+    if c.ns_reopened_elsewhere {
+        probe.label("symbol_declared_in_namespace_reopened_in_file_without_the_symbol");
+    }
+    if c.ns_reopened_use {
+        probe.label("namespace_member_newname_used_in_reopened_namespace_of_other_file");
+    }
     if r0.errors.iter().any(|e| !e.is_empty()) {
         probe.label("original_faults_at_runtime");
     }
@@ -344,6 +509,9 @@ pub fn check_case(c: &Case, probe: &mut Probe, open: &dyn Fn(&str) -> bool) -> R
     let Some(edits) = res else {
         probe.label("outcome=refused");
         probe.label(format!("refused:newname={}", c.name_class));
+        if c.new_name_used_in_other_file {
+            probe.label("refused:newname_used_in_file_without_the_symbol");
+        }
         return Ok(());
     };
     let n_edits: usize = edits.values().map(|v| v.len()).sum();
@@ -360,6 +528,9 @@ pub fn check_case(c: &Case, probe: &mut Probe, open: &dyn Fn(&str) -> bool) -> R
     }
     probe.label("outcome=accepted");
     probe.label(format!("accepted:newname={}", c.name_class));
+    if c.new_name_used_in_other_file {
+        probe.label("accepted:newname_used_in_file_without_the_symbol");
+    }
     let ctx = |what: String| -> String {
         format!(
             "{what}\n  rename of {:?} ({} / {}) at file {} offset {} to {:?} [{}]; edits: {:?}",
@@ -380,6 +551,9 @@ pub fn check_case(c: &Case, probe: &mut Probe, open: &dyn Fn(&str) -> bool) -> R
         Ok(r1) => {
             if c.case_variants {
                 probe.label("behaviour=skipped_case_variants");
+            } else if c.ns_functions && open("C16-runtime-namespaced-function-result-write") {
+                probe.excluded("C16-runtime-namespaced-function-result-write (project declares a namespaced FUNCTION; behaviour not compared)");
+                probe.label("behaviour=skipped_namespaced_function");
             } else if r0.errors.iter().flatten().any(|e| e.starts_with("Undefined")) {
                 // the error-free original already faults on a name lookup at run time (open
                 // runtime findings of the F4 family); what it does depends on spelling
@@ -555,6 +729,12 @@ fn mkcase_cmd(args: &[String]) -> i32 {
         gen_excluded: vec![],
         owner_name: String::new(),
         member_names: vec![],
+        new_name_used_in_other_file: false,
+        ns_functions: false,
+        ns_reopened_use: false,
+        in_namespace: false,
+        ns_reopened_elsewhere: false,
+        position_biased: false,
     };
     println!("{}", serde_json::to_string_pretty(&c).unwrap());
     0
